@@ -17,9 +17,9 @@ import (
 
 	"github.com/ipfs/go-cid"
 	"github.com/ipni/go-libipni/announce/httpsender"
+	"github.com/ipni/go-libipni/announce/message"
 	"github.com/ipni/go-libipni/announce/p2psender"
 	pubsub "github.com/libp2p/go-libp2p-pubsub"
-	"github.com/ipni/go-libipni/announce/message"
 	"github.com/multiformats/go-multiaddr"
 	"github.com/multiformats/go-multihash"
 	"github.com/multiformats/go-varint"
@@ -374,10 +374,18 @@ func Run(args []string) *rep.Report {
 		}
 		// gossip sender: the message a subscriber on another host receives decodes to the message that was sent
 		if perr == nil && tc.M.Extra != "atcap" && len(input) < 512<<10 {
-			sent := build(tc.M, idx)
-			if err := psnd.Send(context.Background(), sent); err != nil {
-				bad("p2p-sender-error", tc, err.Error())
-			} else {
+			// two announcements back to back through the same sender, read afterwards: each arrives as it was sent
+			pair := []message.Message{build(tc.M, idx), build(tc.M, idx+100000)}
+			var serr error
+			for _, m := range pair {
+				if serr = psnd.Send(context.Background(), m); serr != nil {
+					bad("p2p-sender-error", tc, serr.Error())
+					break
+				}
+			}
+			// gossipsub validates concurrently, so the two may arrive in either order: each must arrive once, as it was sent
+			arrived := map[string]int{}
+			for k := 0; serr == nil && k < len(pair); k++ {
 				ctx, cancel := context.WithTimeout(context.Background(), 3*time.Second)
 				pm, err := psub.Next(ctx)
 				cancel()
@@ -388,11 +396,26 @@ func Run(args []string) *rep.Report {
 				case err != nil:
 					r.Inconclusive++
 					r.SetExtra("p2p_sender_lost", err.Error())
+					arrived["lost"]++
 				case got.UnmarshalCBOR(bytes.NewReader(pm.Data)) != nil:
 					bad("p2p-sender-wire", tc, "the subscriber cannot decode what the gossip sender published")
-				case !same(project(&got), tc.M) || got.Cid != sent.Cid || got.OrigPeer != sent.OrigPeer || pm.GetFrom() != pe.H1.ID():
-					bad("p2p-sender-wire", tc, fmt.Sprintf("the subscriber decodes %+v from %s, sent %+v by %s", project(&got), pm.GetFrom(), tc.M, pe.H1.ID()))
+					arrived["undecodable"]++
+				default:
+					var sent *message.Message
+					for n := range pair {
+						if pair[n].Cid == got.Cid {
+							sent = &pair[n]
+						}
+					}
+					arrived[got.Cid.String()]++
+					if sent == nil || !same(project(&got), tc.M) || got.OrigPeer != sent.OrigPeer || pm.GetFrom() != pe.H1.ID() {
+						bad("p2p-sender-wire", tc, fmt.Sprintf("two announcements sent back to back: the subscriber decodes %+v (cid %s) from %s; sent %+v with cids %s and %s by %s",
+							project(&got), got.Cid, pm.GetFrom(), tc.M, pair[0].Cid, pair[1].Cid, pe.H1.ID()))
+					}
 				}
+			}
+			if serr == nil && arrived["lost"] == 0 && arrived["undecodable"] == 0 && (arrived[pair[0].Cid.String()] != 1 || arrived[pair[1].Cid.String()] != 1) {
+				bad("p2p-sender-wire", tc, fmt.Sprintf("two announcements sent back to back did not arrive once each: %v", arrived))
 			}
 		}
 		// HTTP sender, CBOR and JSON: what is put on the wire is what a receiver decodes
